@@ -25,7 +25,7 @@ use std::io::Read;
 
 pub struct C16;
 
-pub const ARCHIVE_LABELS: [&str; 8] = ["formula-0", "formula-1", "d", "x_1", "3", "EX", "formula-10", "A1"];
+pub const ARCHIVE_LABELS: [&str; 8] = ["formula-0", "formula-1", "_dom", "x_1", "3", "EX", "formula-10", "__"];
 
 pub fn read_zip(path: &str) -> Result<BTreeMap<String, String>, String> {
     let file = std::fs::File::open(path).map_err(|e| e.to_string())?;
